@@ -412,15 +412,18 @@ def nextSchedulerEvent (evTime : Int) : SimM SEvent := do
     if start ≥ f.loopTimeout then
       return ← mkEvent ET.simulatorEnd f.loopTimeout
   else
-    let allBusy ← sched.allM (fun t => do
-      let x ← getTask t
-      pure (x.state == .running || x.state == .scheduled))
+    let taskOf (t : TaskId) : Option TaskS := (s.graphs[t.g]?).bind (·.task? t.t)
+    let allBusy := sched.all (fun t =>
+      match taskOf t with
+      | some x => x.state == .running || x.state == .scheduled
+      | none => false)
     let full := s.pools.all (·.isFull)
     -- every (task, worker-with-the-task's-profile-loaded) pair has no compatible strategy
-    let noFit ← sched.allM (fun t => do
-      let x ← getTask t
-      pure (s.pools.all (fun p => p.workers.all (fun w =>
-        !w.availProf.has x.profile || (x.strategies.filter w.canAccommodate).isEmpty))))
+    let noFit := sched.all (fun t =>
+      match taskOf t with
+      | some x => s.pools.all (fun p => p.workers.all (fun w =>
+          !w.availProf.has x.profile || (x.strategies.filter w.canAccommodate).isEmpty))
+      | none => false)
     if sched.isEmpty || allBusy || full || noFit then
       let relT : Int := match nextRelease with
         | some e => e.ev.time + f.schedDelay
@@ -529,31 +532,34 @@ def handleTaskRelease (ev : SEvent) : SimM Unit := do
           editEvent eid (fun e => { e with ev := { e.ev with time := newT } })
           reheapify
 
-def handleTaskFinished (ev : SEvent) : SimM Unit := do
-  let some t := ev.tid | throw .attributeError
-  let time := ev.ev.time
-  let x ← getTask t
-  let some pid := x.pool | throw .attributeError
-  let pool ← getPool pid
-  let (pool', o) := pool.removeTask (gid t)
-  setPool pid pool'
-  match o with
+/-- Re-raise the outcome of a ledger operation. -/
+def raiseOutcome : Outcome → SimM Unit
   | .ok => pure ()
   | .raised .valueError => throw .valueError
   | .raised .runtimeError => throw .runtimeError
   | .raised .keyError => throw .keyError
   | .raised .attributeError => throw .attributeError
+
+/-- First part of `__handle_task_finished`: free the resources, finish the task. -/
+def finishRemove (t : TaskId) (time : Int) : SimM Unit := do
+  let x ← getTask t
+  let some pid := x.pool | throw .attributeError
+  let pool ← getPool pid
+  setPool pid (pool.removeTask (gid t)).1
+  raiseOutcome (pool.removeTask (gid t)).2
   logE (.remove t pid time)
   taskCall t (·.doFinish none)
   logE (.finish t time)
   modify fun s => { s with finishedTasks := s.finishedTasks + 1 }
+
+/-- Second part: the TASK_FINISHED / TASK_GRAPH_FINISHED / MISSED_* rows and counters. -/
+def finishRows (t : TaskId) (time : Int) : SimM Unit := do
   let x ← getTask t
   let g ← getGraph t.g
   let m := (← get).metas[t.g]?
   let ts := nstr ((m.map (·.timestamp)).getD 0)
   row [istr time, "TASK_FINISHED", x.name, ts, g.name, istr x.completion, istr x.deadline, tlabel t]
-  let gComplete := g.isComplete
-  if gComplete then
+  if g.isComplete then
     modify fun s => { s with finishedGraphs := s.finishedGraphs + 1 }
     let tard : Int := if g.deadline > time then 0 else time - g.deadline
     row [istr time, "TASK_GRAPH_FINISHED", g.name, istr g.deadline, istr tard]
@@ -564,7 +570,10 @@ def handleTaskFinished (ev : SEvent) : SimM Unit := do
     row [istr time, "MISSED_DEADLINE", x.name, ts, istr x.deadline, tlabel t]
   if time > g.deadline then
     row [istr time, "MISSED_TASK_GRAPH_DEADLINE", g.name, istr g.deadline]
-  -- notify_task_completion
+
+/-- Third part: `notify_task_completion`, closed-loop follow-up, new events. -/
+def finishNotify (t : TaskId) (time : Int) : SimM Unit := do
+  let g ← getGraph t.g
   let s ← get
   let r := g.notifyCompletion t.t time s.tape
   set { s with tape := r.tape }
@@ -588,11 +597,17 @@ def handleTaskFinished (ev : SEvent) : SimM Unit := do
     addEvent (← mkEvent ET.taskRelease rtime (tid := some rt))
     lastTime := rtime
 
-def handleTaskPlacement (ev : SEvent) : SimM Unit := do
+def handleTaskFinished (ev : SEvent) : SimM Unit := do
   let some t := ev.tid | throw .attributeError
-  let some p := ev.placement | throw .attributeError
+  finishRemove t ev.ev.time
+  finishRows t ev.ev.time
+  finishNotify t ev.ev.time
+
+/-- `__handle_task_placement`, the task is not ready to run: drop the placement of a
+cancelled task / graph, or retry after the parents' remaining time. Returns `true`
+when the placement was dealt with here. -/
+def placementNotReady (ev : SEvent) (t : TaskId) (p : PlacementS) : SimM Bool := do
   let time := ev.ev.time
-  if !(← get).future.has t then throw .assertionError
   let g ← getGraph t.g
   let x ← getTask t
   let m := (← get).metas[t.g]?
@@ -607,7 +622,7 @@ def handleTaskPlacement (ev : SEvent) : SimM Unit := do
         for c in r.cancelled do
           logE (.cancel ⟨t.g, c⟩ time)
           addEvent (← mkEvent ET.taskCancel time (tid := some ⟨t.g, c⟩))
-      return
+      return true
     else
       -- `max(parent.remaining_time for parent in parents)`: ValueError for a source
       let mut rems : List Int := []
@@ -621,17 +636,45 @@ def handleTaskPlacement (ev : SEvent) : SimM Unit := do
       modify fun s => { s with future := s.future.set t e.ev.eid }
       addEvent e
       row [istr time, "TASK_NOT_READY", x.name, ts, tlabel t, plabel (p.pool.getD 0)]
-      return
-  let some pid := p.pool | throw .assertionError
-  let some pool := (← get).pools[pid]? | throw .assertionError
-  let (pool', res) := pool.placeTask (gid t) x.strategies p.strat p.worker
-  setPool pid pool'
-  match res with
+      return true
+  return false
+
+/-- Re-raise the exception of `WorkerPool.place_task`. -/
+def raisePlace : Except PyErr Bool → SimM Bool
+  | .ok b => pure b
   | .error .valueError => throw .valueError
   | .error .runtimeError => throw .runtimeError
   | .error .keyError => throw .keyError
   | .error .attributeError => throw .attributeError
-  | .ok true =>
+
+/-- The row of a started task: `worker_pool.get_allocated_resources(task)` (a read that
+may insert an empty ledger entry). -/
+def placementRow (t : TaskId) (pid : Nat) (time : Int) (st : Strategy) : SimM Unit := do
+  let x ← getTask t
+  let g ← getGraph t.g
+  let m := (← get).metas[t.g]?
+  let ts := nstr ((m.map (·.timestamp)).getD 0)
+  let pool ← getPool pid
+  let some wi := pool.placed.get? (gid t) | throw .keyError
+  let (pool', alloc) := pool.onWorker' wi (gid t)
+  setPool pid pool'
+  let pairs ← match alloc with
+    | some (.ok l) => pure l
+    | _ => throw .runtimeError
+  row [istr time, "TASK_PLACEMENT", x.name, g.name, ts, tlabel t, plabel pid, istr st.runtime, vecStr pairs]
+
+/-- `__handle_task_placement`, the task is ready: place it and start it, or retry in 1 µs. -/
+def placementPlace (ev : SEvent) (t : TaskId) (p : PlacementS) : SimM Unit := do
+  let time := ev.ev.time
+  let x ← getTask t
+  let m := (← get).metas[t.g]?
+  let ts := nstr ((m.map (·.timestamp)).getD 0)
+  let some pid := p.pool | throw .assertionError
+  if (← get).pools[pid]?.isNone then throw .assertionError   -- `assert worker_pool is not None`
+  let pool ← getPool pid
+  setPool pid (pool.placeTask (gid t) x.strategies p.strat p.worker).1
+  let placed ← raisePlace (pool.placeTask (gid t) x.strategies p.strat p.worker).2
+  if placed then
     logE (.place t pid time)
     let some st := p.strat | throw .attributeError
     -- `task.start(time, variance)`: the fuzzed remaining time is a tape input
@@ -641,22 +684,20 @@ def handleTaskPlacement (ev : SEvent) : SimM Unit := do
     -- a task with no work left is never reported by `step`: its completion is notified here
     if (← liftE (← getTask t).remainingTime) == 0 then
       addEvent (← mkEvent ET.taskFinished time (tid := some t))
-    let pool'' ← getPool pid
-    -- `worker_pool.get_allocated_resources(task)`
-    let some wi := pool''.placed.get? (gid t) | throw .keyError
-    let some w := pool''.workers[wi]? | throw .keyError
-    let (w', alloc) := w.getAllocated (gid t)
-    setPool pid (pool''.setWorker wi w')
-    let pairs ← match alloc with
-      | .ok l => pure l
-      | .error _ => throw .runtimeError
-    row [istr time, "TASK_PLACEMENT", x.name, g.name, ts, tlabel t, plabel pid, istr st.runtime, vecStr pairs]
+    placementRow t pid time st
     modify fun s => { s with future := s.future.erase t }
-  | .ok false =>
+  else
     let e ← mkEvent ET.taskPlacement (time + 1) (tid := some t) (placement := some p)
     addEvent e
     modify fun s => { s with future := s.future.set t e.ev.eid }
     row [istr time, "WORKER_NOT_READY", x.name, ts, tlabel t, plabel pid]
+
+def handleTaskPlacement (ev : SEvent) : SimM Unit := do
+  let some t := ev.tid | throw .attributeError
+  let some p := ev.placement | throw .attributeError
+  if !(← get).future.has t then throw .assertionError
+  if ← placementNotReady ev t p then return
+  placementPlace ev t p
 
 def handleUpdateWorkload (ev : SEvent) : SimM Unit := do
   let s ← get
@@ -688,20 +729,14 @@ def handleProfile (ev : SEvent) (load : Bool) : SimM Unit := do
   let some p := ev.placement | throw .attributeError
   if (load && p.kind != .load) || (!load && p.kind != .evict) then throw .valueError
   let some pid := p.pool | throw .valueError
-  let some pool := (← get).pools[pid]? | throw .valueError
-  let (pool', o) :=
-    if load then
-      match p.strat with
-      | some st => pool.loadProfile p.profile st p.worker
-      | none => (pool, Outcome.raised .attributeError)
-    else pool.evictProfile p.profile p.worker
-  setPool pid pool'
-  match o with
-  | .ok => pure ()
-  | .raised .valueError => throw .valueError
-  | .raised .runtimeError => throw .runtimeError
-  | .raised .keyError => throw .keyError
-  | .raised .attributeError => throw .attributeError
+  let pool ← getPool pid
+  if load then
+    let some st := p.strat | throw .attributeError
+    setPool pid (pool.loadProfile p.profile st p.worker).1
+    raiseOutcome (pool.loadProfile p.profile st p.worker).2
+  else
+    setPool pid (pool.evictProfile p.profile p.worker).1
+    raiseOutcome (pool.evictProfile p.profile p.worker).2
 
 /-- `__handle_event`: returns `true` when the simulation ends. -/
 def handleEvent (ev : SEvent) : SimM Bool := do
@@ -731,6 +766,10 @@ def handleEvent (ev : SEvent) : SimM Bool := do
   else throw .valueError
   return false
 
+/-- `self._simulator_time += step_size` (and the clock entry of the history log). -/
+def advanceClock (dt : Int) : SimM Unit :=
+  modify fun s => { s with now := s.now + dt, log := s.log.push (.clock (s.now + dt)) }
+
 /-- `__step(step_size)`: step every worker (profiles, then the RUNNING tasks in
 placement order), advance the clock, queue the TASK_FINISHED events. -/
 def step (dt : Int) : SimM Unit := do
@@ -740,9 +779,9 @@ def step (dt : Int) : SimM Unit := do
   let mut finished : List TaskId := []
   for pi in List.range s.pools.size do
     let pool ← getPool pi
-    let mut ws : List Worker := []
+    -- profiles first (they do not interact with the tasks), then the RUNNING tasks worker by worker
+    setPool pi (pool.stepProfiles dt)
     for w in pool.workers do
-      ws := ws ++ [w.stepProfiles dt]
       for (n, _) in w.placed do
         let t := ungid n
         let x ← getTask t
@@ -750,12 +789,10 @@ def step (dt : Int) : SimM Unit := do
         let (x', fin) := x.doStep now dt
         setTask t x'
         if fin then finished := finished ++ [t]
-    setPool pi { pool with workers := ws }
   let mut evs : List SEvent := []
   for t in finished do
     evs := evs ++ [← mkEvent ET.taskFinished (now + dt) (tid := some t)]
-  modify fun s => { s with now := now + dt }
-  logE (.clock (now + dt))
+  advanceClock dt
   for e in evs do addEvent e
 
 def popEvent : SimM SEvent := do
